@@ -114,16 +114,20 @@ def mutate_elem(rng, toks, datum):
 
 def gen_case(rng):
     nrules = rng.randrange(1, 4)
-    rules = []
+    rules, rules_q = [], []
     pats = []
     for _ in range(nrules):
         p = gen_pat(rng, 2, top=True)
         vs = sorted(set(pat_vars(p)))
         t = gen_tmpl(rng, vs, 2) if rng.random() < 0.9 else rng.choice(vs + ["1", "x"])
         rules.append("((m %s %s)" % (p[1:], t) if p != "()" else "((m) %s)" % t)
+        rules_q.append("((m %s (quote %s))" % (p[1:], t) if p != "()" else "((m) (quote %s))" % t)
         pats.append(p)
     lits = "(k)" if rng.random() < 0.7 else "()"
     defs = "(define-syntax m (syntax-rules %s %s))" % (lits, " ".join(rules))
+    # the same rules with every template QUOTED: evaluating a use then yields the instantiated template as a value, through the
+    # whole front end (reader, use-site handling in the parser, expander, evaluator)
+    gen_case.quoted = "(define-syntax m (syntax-rules %s %s))" % (lits, " ".join(rules_q))
     base = rng.choice(pats)
     u = gen_use_from_pat(rng, base)
     use = "(m " + u.strip()[1:].strip() if u.strip().startswith("(") else "(m)"
